@@ -134,14 +134,12 @@ theorem Inv.decLevel {n p} (h : Inv (n + 1) p) : Inv n p.decLevel := by
 
 theorem Inv.wordPart {n p} (h : Inv n p) (wp) : Inv n (p.wordPart wp) := by
   unfold P.wordPart
-  cases wp with
-  | lit a b v => dsimp only; split <;> exact h
-  | sgl l r v => exact h
+  cases wp <;> exact h
 
 theorem Inv.wordPartsLoop {n} (wps : List WordPart) : ∀ {p}, Inv n p → Inv n (p.wordPartsLoop wps) := by
   induction wps with
   | nil => intro p h; exact h
-  | cons wp rest ih => intro p h; unfold P.wordPartsLoop; exact ih ((h.wordPart wp).advanceLine _)
+  | cons wp rest ih => intro p h; unfold P.wordPartsLoop; exact ih (h.wordPart wp)
 
 theorem Inv.wordParts {n p} (h : Inv n p) (wps : List WordPart) (hne : wps ≠ []) : Inv n (p.wordParts wps) := by
   unfold P.wordParts
